@@ -303,7 +303,9 @@ func checkC09Dyn(c *c09DynCase) (msg string, nontrivial bool) {
 
 func TestC09DynamicGroups(t *testing.T) {
 	rapid.Check(t, func(rt *rapid.T) {
-		vals := []string{`1`, `1.0`, `"1"`, `2`, `"2"`, `2.5`, `"2.5"`, `true`, `"true"`, `false`, `"b"`, `""`, `0`, `"0"`, `0.1234561`, `0.1234562`, `null`}
+		vals := []string{`1`, `1.0`, `"1"`, `2`, `"2"`, `2.5`, `"2.5"`, `true`, `"true"`, `false`, `"b"`, `""`, `0`, `"0"`, `0.1234561`, `0.1234562`, `null`,
+			// whole numbers beyond the integers a float (and an int64) can tell apart
+			`1e19`, `2e19`, `10000000000000000000`, `-4e19`, `4e18`, `9007199254740992`, `9007199254740994`}
 		n := rapid.IntRange(2, 9).Draw(rt, "n")
 		pairs := make([]lib.Pair, n)
 		for i := range pairs {
